@@ -406,6 +406,69 @@ Definition check_C19_budget (x : gctx) (calls : list call) : bool :=
 
 Definition check_C19_group (x : gctx) (calls : list call) : bool := check_C19_calls x calls [] [] && check_C19_budget x calls.
 
+(* ---------- C07, the exact remainder ---------- *)
+(* the decision after the two triggers (starvation, max node age): each raises it to at least 1 *)
+Definition final_delta (e : env) (o : opts) (mn mx : Z) (us : usage) (cap : capacity) (unt tainted : list node) (d0 : Z) : Z :=
+  let d1 := if scale_on_starve o mx us cap unt then Z.max d0 1 else d0 in
+  if scale_on_max_age e o mn unt tainted then Z.max d1 1 else d1.
+
+(* the group's memory once the scale lock has been looked at *)
+Definition st2_of (x : gctx) : gstate :=
+  with_lock (x_st x) (snd (lock_check (g_lock (x_st x)) (e_now (x_env x)) (o_cool (x_opts x)))).
+
+(* N: the number of nodes the scan decides it needs more, from the snapshot only; None when the scan does not scale up *)
+Definition need_of (x : gctx) : option Z :=
+  let n := zlen (x_nodes x) in
+  let unt := c_untainted (x_cls x) in
+  if in_cooldown x then None
+  else if (match x_nodes x, x_pods x with [], [] => true | _, _ => false end) then None
+  else if (n <? x_min x) || (x_max x <? n) then None
+  else if zlen unt <? x_min x then Some (x_min x - zlen unt)
+  else match percents x with
+       | PctErr => None
+       | PctOk c m =>
+         match decide (x_opts x) (st2_of x) c m (r_cpu (u_total (usage_of x))) (1000 * r_mem (u_total (usage_of x))) unt with
+         | DeltaErr _ => None
+         | DeltaOk d0 =>
+           let d2 := final_delta (x_env x) (x_opts x) (x_min x) (x_max x) (usage_of x) (capacity_of x) unt (c_tainted (x_cls x)) d0 in
+           if 0 <? d2 then Some d2 else None
+         end
+       end.
+
+Fixpoint first_increase (calls : list call) : option acall :=
+  match calls with
+  | [] => None
+  | c :: rest => if is_cloud_increase c then match c with CA a => Some a | CK _ => None end else first_increase rest
+  end.
+
+(* the nodes the scale-up counts as brought back: written untainted, or read back successfully with no escalator
+   taint left on the API server's copy (nothing to write) *)
+Definition counted_untainted (x : gctx) (before : list call) : Z :=
+  zlen (untaint_ok_targets x before)
+  + zlen (filter (fun m => in_class (c_tainted (x_cls x)) m && negb (api_has_esc x m)) (ok_got_names before)).
+
+(* the first increase asks for exactly clamp(N - untainted) on top of the desired size as it stands after the scan's
+   own accepted terminations *)
+Definition check_C07_exact (x : gctx) (calls : list call) : bool :=
+  if x_dry x then true
+  else match first_increase calls with
+       | None => true
+       | Some c =>
+         match need_of x, x_asg x with
+         | Some N, Some a =>
+           let before := calls_before_increase calls in
+           let d := a_desired a - ok_terminations before in
+           let m := Z.min (x_max x) (a_max a) in
+           let add := nodes_to_add (N - counted_untainted x before) d m in
+           (0 <? add) && match c with
+                         | ASetDesired _ v _ _ => v =? d + add
+                         | ACreateFleet total _ _ _ _ _ _ _ => total =? add
+                         | _ => false
+                         end
+         | _, _ => false
+         end
+       end.
+
 (* ---------- well-formed views: node names are unique (a Kubernetes invariant the nodupb-style claims rest on) ---------- *)
 Definition wf_ctx (x : gctx) : bool := nodupb (map n_name (x_nodes x)).
 
